@@ -38,8 +38,4 @@ def main() -> int:
 
 
 def replay(path: str) -> int:
-    import json
-
-    p = json.load(open(path))
-    print(json.dumps({k: p[k] for k in p if k != "files"}, indent=1)[:1200])
-    return 1
+    return cenc.replay_main(path)
